@@ -417,6 +417,7 @@ func vfc42Gen(rng *rand.Rand) vfc42Hist {
 		other = vfc42Steps[rng.Intn(len(vfc42Steps))]
 	}
 	nq := 1 + rng.Intn(8)
+	zoom := rng.Intn(4) == 0 // a zooming session: tiny first range, then queries starting inside / covering the earlier ones
 	resolutions := rng.Intn(3) == 0 // this history also varies max_source_resolution (mostly "auto" = step/5)
 	tenants := []string{"t1"}
 	if rng.Intn(2) == 0 {
@@ -447,18 +448,51 @@ func vfc42Gen(rng *rand.Rand) vfc42Hist {
 		if rng.Intn(12) == 0 {
 			dur = 0
 		}
+		tiny := rng.Intn(6) == 0 || (zoom && k == 0)
+		if tiny {
+			dur = (1 + rng.Int63n(4)) * q.Step // 1..4 steps: below the minimum cache extent for steps <= 1m
+		}
 		var prev *vfc42Query
 		if k > 0 && rng.Intn(5) != 0 {
 			prev = &h.Queries[rng.Intn(k)]
 		}
+		if zoom && k > 0 {
+			prev = &h.Queries[k-1] // a zooming session: every query relates to the one before
+		}
 		if prev == nil {
 			q.Rel = "fresh"
+			if tiny {
+				q.Rel = "fresh-tiny"
+			}
 			q.Start = vfc42Base + rng.Int63n(30*3600)*1000
 			q.Start = q.Start / q.Step * q.Step
 			q.End = q.Start + dur
 		} else {
 			plen := prev.End - prev.Start
-			switch rng.Intn(11) {
+			rel := rng.Intn(13)
+			if zoom {
+				rel = []int{11, 12, 11, 12, 0, 8, 7}[rng.Intn(7)]
+			}
+			switch rel {
+			case 11:
+				// starts strictly inside the earlier range (by >= 2 steps where it is long enough) and runs beyond its end
+				q.Rel = "starts-inside"
+				inside := plen / q.Step
+				off := int64(1)
+				if inside >= 3 {
+					off = 2 + rng.Int63n(inside-2)
+				}
+				q.Start = prev.Start + off*q.Step
+				q.End = max(prev.End, q.Start) + (1+rng.Int63n(maxPts))*q.Step
+			case 12:
+				// covers everything asked so far for this tenant and query string
+				q.Rel = "cover-all"
+				q.Start, q.End = prev.Start, prev.End
+				for _, o := range h.Queries[:k] {
+					if o.Tenant == prev.Tenant && o.Query == prev.Query {
+						q.Start, q.End = min(q.Start, o.Start), max(q.End, o.End)
+					}
+				}
 			case 7:
 				q.Rel = "left-extension"
 				q.Start, q.End = prev.Start-(1+rng.Int63n(maxPts))*q.Step, prev.End
@@ -508,7 +542,7 @@ func vfc42Gen(rng *rand.Rand) vfc42Hist {
 				q.Start = prev.End + (2+rng.Int63n(20))*q.Step
 				q.End = q.Start + dur
 			}
-			if rng.Intn(3) != 0 || q.Rel == "hole-fill" || q.Rel == "left-extension" || q.Rel == "right-extension" {
+			if zoom || rng.Intn(3) != 0 || q.Rel == "hole-fill" || q.Rel == "left-extension" || q.Rel == "right-extension" || q.Rel == "starts-inside" || q.Rel == "cover-all" {
 				q.Tenant, q.Query = prev.Tenant, prev.Query
 			}
 			// keep the history on the step grid: starts and ends are multiples of the step ...
@@ -727,7 +761,7 @@ func TestVF_C42(t *testing.T) {
 	defer r.Finish()
 	r.Rule("case = history of 1..8 range queries (1-2 tenants, 1-2 query strings, steps from {15s,1m,5m,1h}: one step / finer-then-coarser / two mixed; each query fresh or identical/shifted/adjacent/contained/superset/disjoint w.r.t. an earlier one; start==end sometimes; <=600 points) " +
 		"against a fresh real NewTripperware (results cache + split interval {1h,6h,24h} or dynamic split, align-range-with-step on 70%/off 30%, parallelism 1..4, cache backend = lossy in-memory cache (0/10/30% of accesses lose the entry) or the real FIFO cache with 1..4 items, optional snappy); " +
-		"each query fresh or identical/shifted/adjacent-before/after/contained/superset/disjoint/left-extension/right-extension/hole-fill w.r.t. earlier ones; " +
+		"each query fresh or identical/shifted/adjacent-before/after/contained/superset/disjoint/left-extension/right-extension/hole-fill/starts-inside (>= 2 steps inside an earlier range, running beyond it)/cover-all w.r.t. earlier ones; 1 in 6 ranges is tiny (1..4 steps, below the 5-minute minimum cache extent for steps <= 1m); 1 in 4 histories is a zooming session (tiny first range, every query relates to the previous one); duplicate timestamps in a series are a difference (nothing is de-duplicated before comparing); " +
 		"in 1 of 3 histories queries also carry max_source_resolution (mostly auto = step/5, else none/10m/2h) and the downstream serves different data per downsampling level (1h / 5m / raw) as a querier does; downstream = pure function of (tenant, query, level, timestamp) with series that appear/disappear and 7-minute holes, all data in March 2021; in 3 of 4 histories each series is float, native-histogram-only or mixed (11-minute blocks) by a hash of (world, i), so histogram-only series sort first, in the middle or last; histogram samples (count, sum, buckets) are compared like float values; " +
 		"requests are on the step grid unless align-range-with-step is on (then 1/3 are unaligned and the oracle is the direct answer for the step-aligned range, the documented behaviour of that option); " +
 		"oracle: response through the frontend == direct answer (series set, timestamps, values, exact); distinct = history; non-trivial = at least one cache hit happened in the history")
